@@ -12,8 +12,8 @@ import (
 	"encoding/json"
 	"fmt"
 	"os"
-	"regexp"
 	"os/exec"
+	"regexp"
 	"sort"
 	"strings"
 	"time"
